@@ -1,5 +1,4 @@
 /* TRUSTED: BSD socket calls (send/sendto/recv/recvfrom/accept/connect/poll/getsockopt/setsockopt/getsockname/getpeername/bind/listen/shutdown/socket/close/fcntl) -- each checks that it is issued on the socket's own LIVE descriptor with the caller's buffer/length, counts itself, and returns either a success value POSIX allows (any count 0..len for transfers) or -1 with ANY errno (EINTR, EAGAIN, ... at every call: unbounded fault sequences); data contents are the kernel's */
-/* TRUSTED: p_error_get_last_net/p_error_get_last_system -- return the ghost errno set by the failing native call */
 #ifndef VERIF_ENV_SOCKETS_C
 #define VERIF_ENV_SOCKETS_C
 #include "env/verif.h"
@@ -13,10 +12,10 @@
 #include <string.h>
 #include "pmacros.h"
 #include "ptypes.h"
+#include "env/errno_stub.c"
 
 int       g_sock_fd;            /* descriptor of the socket under test */
 _Bool     g_fd_live;            /* ... and whether the kernel still has it open */
-int       g_errno;
 /* ghost counters are mathematical: executions with 2^62 native calls are not considered (INC assumes no wrap) */
 unsigned long g_native;         /* native calls on descriptors, any kind */
 unsigned long g_polls, g_xfers, g_closes, g_accepts, g_connects, g_sockopts;
@@ -41,8 +40,6 @@ const struct sockaddr *g_addr_arg; socklen_t g_addr_len; int g_addr_family;
 	!g_xfer_ok && !g_last_fail_poll && !g_new_fd_live && !g_new_fd_cloexec && !g_new_fd_nonblock && !g_close_failed && \
 	g_binds == 0 && g_listens == 0 && g_shutdowns == 0 && g_socket_calls == 0)
 
-pint p_error_get_last_net (void)    { return g_errno; }
-pint p_error_get_last_system (void) { return g_errno; }
 
 #define NATIVE(fd) do { INC (g_native); ENV_REQ ((fd) == g_sock_fd && g_fd_live, "native call only on the socket's own live descriptor"); } while (0)
 #define FAIL_ANY_ERRNO do { g_errno = nondet_int (); __CPROVER_assume (g_errno > 0); } while (0)
